@@ -39,6 +39,12 @@ def run(ck):
     ck.clause("C13.8", "the segment builder works with the configured --minScore and --breakSegmentThreshold: the factory passes both "
                        "through unchanged and unexchanged (as C04.1)")
     c04.wiring(RuleView(ck, {"C04.1": "C13.8"}))
+    ck.clause("C13.9", "the thresholds a factory applies are its own: the segment-building classes keep no class-level or module-level "
+                       "state written at run time (a second factory with other thresholds would change what the first one returns) (as C10.1)")
+    from . import c10
+    seg_fns = [f for f in p.nontest_functions() if f.module.name in ("src.alignment.segments_factory", "src.alignment.segments")]
+    c10.module_state(RuleView(ck, {"C10.1": "C13.9"}), fns=seg_fns, floor=20)
+    ck.ok("C13.9", "segment modules:module-state", "src/alignment/segments_factory.py", f"{len(seg_fns)} functions scanned for run-time class / module writes")
     factory = p.find_class("AlignmentSegmentsFactory")
     finit = p.lookup_method(factory, "__init__", None)
     get = p.lookup_method(factory, "getSegments", None)
